@@ -37,8 +37,10 @@ class Ctx:
         self.solver = z3.Solver()
         self.solver.set('timeout', timeout_ms)
         self.solver.set('random_seed', seed)
-        self.trail = []  # [choice, done]; done == forced or already flipped
+        self.trail = []  # [choice, done, free]; done == forced or already flipped
         self.pos = 0
+        self.free = 0  # free (two-sided) decisions taken so far on the current path
+        self.split = None  # (index, depth): explore only the subtree selected by the first `depth` free decisions
         self.max_paths = max_paths
         self.deadline = deadline
         self.inputs = {}  # name -> z3 const (registered per path)
@@ -101,25 +103,37 @@ def fork(cond) -> bool:
     if z3.is_false(cond):
         return False
     if c.pos < len(c.trail):
-        choice = c.trail[c.pos][0]
+        choice, _, free = c.trail[c.pos]
         c.pos += 1
+        if free:
+            c.free += 1
         c.solver.add(cond if choice else z3.Not(cond))
         return choice
     # invariant: the path condition is satisfiable
     if c.check(cond) == z3.unsat:
-        c.trail.append([False, True])
+        c.trail.append([False, True, False])
         c.pos += 1
         c.stats['forced'] += 1
         c.solver.add(z3.Not(cond))
         return False
     if c.check(z3.Not(cond)) == z3.unsat:
-        c.trail.append([True, True])
+        c.trail.append([True, True, False])
         c.pos += 1
         c.stats['forced'] += 1
         c.solver.add(cond)
         return True
-    c.trail.append([True, False])
+    if c.split is not None and c.free < c.split[1]:
+        # this free decision is fixed by the split index: the sibling subtree belongs to another job
+        choice = bool((c.split[0] >> c.free) & 1)
+        c.trail.append([choice, True, True])
+        c.pos += 1
+        c.free += 1
+        c.stats['forks'] += 1
+        c.solver.add(cond if choice else z3.Not(cond))
+        return choice
+    c.trail.append([True, False, True])
     c.pos += 1
+    c.free += 1
     c.stats['forks'] += 1
     c.solver.add(cond)
     return True
@@ -138,16 +152,18 @@ def assume(cond):
 
 
 def explore(body, *, timeout_ms=60000, seed=0, max_paths=10**6, budget_s=None,
-            sample_models=3):
+            sample_models=3, split=None):
     """Run ``body()`` on every feasible path.  Returns the context with statistics."""
     global CTX
     c = Ctx(timeout_ms=timeout_ms, seed=seed, max_paths=max_paths,
             deadline=(time.time() + budget_s) if budget_s else None)
     CTX = c
+    c.split = split
     try:
         while True:
             c.solver.push()
             c.pos = 0
+            c.free = 0
             c.inputs = {}
             try:
                 body()
@@ -167,7 +183,7 @@ def explore(body, *, timeout_ms=60000, seed=0, max_paths=10**6, budget_s=None,
                 break
             if c.stats['paths'] + c.stats['aborted'] >= c.max_paths:
                 raise Inconclusive(f'path budget {c.max_paths} exhausted')
-            c.trail[-1] = [not c.trail[-1][0], True]
+            c.trail[-1] = [not c.trail[-1][0], True, c.trail[-1][2]]
     finally:
         CTX = None
     return c
@@ -879,3 +895,127 @@ def smax(xs):
 
 def is_sym(x):
     return isinstance(x, Sym)
+
+
+# --------------------------------------------------------------------------- distances by their square
+
+
+class SRoot(Sym):
+    """A non-negative real given by its square ``q`` (SNum / Fraction): comparisons and
+    ``**2`` stay polynomial (no sqrt in the solver); any other arithmetic materialises a
+    fresh real s with s >= 0, s*s == q."""
+    __slots__ = ('q', '_s')
+    __array_priority__ = 1000
+
+    def __init__(self, q):
+        self.q = q
+        self._s = None
+        self.t = None
+
+    def __repr__(self):
+        return f'<SRoot sqrt({self.q})>'
+
+    def val(self):
+        if self._s is None:
+            self._s = ssqrt(self.q)
+        return self._s
+
+    @staticmethod
+    def _sq(o):
+        if isinstance(o, SRoot):
+            return o.q, None
+        if isinstance(o, SNum):
+            return o * o, o >= 0
+        f = rat(o)
+        return f * f, f >= 0
+
+    def _cmp(self, o, op):
+        if isinstance(o, float) and o in (float('inf'), float('-inf')):
+            return {'lt': 0.0 < o, 'le': 0.0 <= o, 'gt': 0.0 > o, 'ge': 0.0 >= o}[op]
+        oq, nonneg = self._sq(o)
+        if nonneg is None or nonneg is True:
+            return {'lt': self.q < oq, 'le': self.q <= oq, 'gt': self.q > oq, 'ge': self.q >= oq}[op]
+        if nonneg is False:  # comparing a distance with a negative number
+            return {'lt': False, 'le': False, 'gt': True, 'ge': True}[op]
+        pos = {'lt': self.q < oq, 'le': self.q <= oq, 'gt': self.q > oq, 'ge': self.q >= oq}[op]
+        neg = {'lt': False, 'le': False, 'gt': True, 'ge': True}[op]
+        return ite(nonneg, pos, neg)
+
+    def __lt__(self, o):
+        return self._cmp(o, 'lt')
+
+    def __le__(self, o):
+        return self._cmp(o, 'le')
+
+    def __gt__(self, o):
+        return self._cmp(o, 'gt')
+
+    def __ge__(self, o):
+        return self._cmp(o, 'ge')
+
+    def __eq__(self, o):
+        if isinstance(o, SRoot):
+            return self.q == o.q
+        if isinstance(o, (SNum, Fraction, int, float)) or _is_intlike(o):
+            oq, nonneg = self._sq(o)
+            return conj([self.q == oq, True if nonneg is None else nonneg])
+        return False
+
+    def __ne__(self, o):
+        e = self.__eq__(o)
+        return ~e if isinstance(e, SBool) else (not e)
+
+    __hash__ = None
+
+    def __pow__(self, n):
+        if _is_intlike(n) and int(n) == 2 or (not isinstance(n, Sym) and rat(n) == 2):
+            return self.q
+        return self.val() ** n
+
+    def __mul__(self, o):
+        if o is self:
+            return self.q
+        if isinstance(o, SRoot):
+            o = o.val()
+        return self.val() * o
+
+    __rmul__ = __mul__
+
+    def __add__(self, o):
+        return self.val() + (o.val() if isinstance(o, SRoot) else o)
+
+    __radd__ = __add__
+
+    def __sub__(self, o):
+        return self.val() - (o.val() if isinstance(o, SRoot) else o)
+
+    def __rsub__(self, o):
+        return (o.val() if isinstance(o, SRoot) else o) - self.val()
+
+    def __truediv__(self, o):
+        return self.val() / (o.val() if isinstance(o, SRoot) else o)
+
+    def __rtruediv__(self, o):
+        return (o.val() if isinstance(o, SRoot) else o) / self.val()
+
+    def __neg__(self):
+        return -self.val()
+
+    def __abs__(self):
+        return self
+
+    def sqrt(self):
+        return ssqrt(self.val())
+
+
+_ite_plain = ite
+
+
+def ite(c, a, b):  # noqa: F811  (extends the scalar ite with SRoot operands)
+    if isinstance(a, SRoot) or isinstance(b, SRoot):
+        if isinstance(c, bool) or type(c).__name__ == 'bool_':
+            return a if c else b
+        qa = a.q if isinstance(a, SRoot) else a * a
+        qb = b.q if isinstance(b, SRoot) else b * b
+        return SRoot(_ite_plain(c, qa, qb))
+    return _ite_plain(c, a, b)
